@@ -2,6 +2,9 @@ import Exetera.Model.Spans
 import Exetera.Spec.Spans
 import Exetera.Lemmas.Spans
 import Exetera.Lemmas.SpansApply
+import Exetera.Lemmas.SpansScan
+import Exetera.Lemmas.SpansMerge
+import Exetera.Lemmas.SpansEntry
 /-!
   C08 — spans are the maximal runs of equal adjacent rows; reductions respect them.
   Every theorem is about the definitions of `Model/Spans.lean` that the driver runs, for all inputs.
@@ -85,6 +88,120 @@ theorem same_span_iff_run {α} [BEq α] [LawfulBEq α] (xs : List α) (i j : Nat
         have hb := (boundary_iff_adjacent_differ neq xs b (by omega) (by omega)).1 hbm
         have := hrun b (by omega) hbj
         simp [neq, this] at hb
+
+/-! ## the other entry points: in bounds, terminating, and equal to the spans of the joint column -/
+
+/-- `_get_spans_for_2_fields(a, b)` (after fix NC08b) returns `.ok` — so no subscript of the compiled kernel is out of
+    bounds, for every length including 0 — and the result is the span array of the zipped column. -/
+theorem get_spans_2_fields_eq_spec (a b : List Int) (hl : a.length = b.length) :
+    getSpansFor2Fields .repaired a b = .ok (spans neq (a.zip b)) :=
+  getSpansFor2Fields_eq_spec a b hl
+
+example : getSpansFor2Fields .repaired [1, 1, 1, 2] [5, 6, 6, 6] = .ok [0, 1, 3, 4] := rfl
+example : getSpansFor2Fields .repaired [] [] = .ok [0] := rfl
+
+/-- `_get_spans_for_multi_fields(fields_data)` for any number ≥ 1 of equal-length columns -/
+theorem get_spans_multi_fields_eq_spec (f0 : List Int) (fs : List (List Int))
+    (hf : ∀ f ∈ f0 :: fs, f.length = f0.length) :
+    getSpansForMultiFields .repaired (f0 :: fs) = .ok (spans neq (jointRows (f0 :: fs) f0.length)) :=
+  getSpansForMultiFields_eq_spec f0 fs hf
+
+example : getSpansForMultiFields .repaired [[1, 1, 1, 2], [5, 6, 6, 6], [0, 0, 0, 0]] = .ok [0, 1, 3, 4] := rfl
+
+/-- `_get_spans_for_index_string_field(indices, values)` (after fix NC08c) for every well-formed index: the spans of
+    the decoded byte strings, compared byte-exactly (length first, then bytes — which is just list inequality). -/
+theorem get_spans_indexed_eq_spec (indices values : List Nat) (hv : ValidIndex indices values) :
+    getSpansForIndexStringField .repaired indices values = .ok (spans neq (decodeRows indices values)) :=
+  getSpansForIndexStringField_eq_spec indices values hv
+
+-- rows "a", "a ", "a ", "", "" : trailing blank matters, empty strings are equal
+example : getSpansForIndexStringField .repaired [0, 1, 3, 5, 5, 5] [97, 97, 32, 97, 32] = .ok [0, 1, 3, 5] := rfl
+example : ValidIndex [0, 1, 3, 5, 5, 5] [97, 97, 32, 97, 32] := by
+  refine ⟨by decide, ?_⟩
+  intro x hx; simp at hx; rcases hx with rfl | rfl | rfl | rfl <;> decide
+
+/-- `_get_spans_for_2_fields_by_spans`: merging the span arrays of two equal-length columns of any element types
+    never reads `span1` out of bounds and yields the span array of the zipped column -/
+theorem get_spans_by_spans_eq_spec {α β} [BEq α] [BEq β] (a : List α) (b : List β) (hl : a.length = b.length) :
+    getSpansFor2FieldsBySpans (getSpansForField neq a) (getSpansForField neq b) = .ok (spans neq (a.zip b)) := by
+  rw [getSpansForField_eq_spec, getSpansForField_eq_spec]
+  exact getSpansFor2FieldsBySpans_eq_spec a b hl
+
+/-- more generally: any two well-formed span arrays over the same row count merge, in bounds, into their sorted union -/
+theorem merge_spans_eq_union (s0 s1 : List Nat) (n : Nat) (h0 : Wellformed s0 n) (h1 : Wellformed s1 n) :
+    ∃ m, getSpansFor2FieldsBySpans s0 s1 = .ok m ∧ Wellformed m n ∧ ∀ z, z ∈ m ↔ z ∈ s0 ∨ z ∈ s1 := by
+  obtain ⟨m, hm, hp, hmem⟩ := merge_wellformed s0 s1 n h0 h1
+  refine ⟨m, hm, ⟨hp, ?_, ?_⟩, hmem⟩
+  · -- head is 0: 0 ∈ m and everything in m is ≥ 0
+    have h0m : 0 ∈ m := (hmem 0).2 (Or.inl (by
+      have := h0.2.1; cases s0 with
+      | nil => simp at this
+      | cons a t => simp at this; simp [this]))
+    cases m with
+    | nil => simp at h0m
+    | cons a t =>
+      rcases List.mem_cons.1 h0m with h | h
+      · simp [← h]
+      · have := (List.pairwise_cons.1 hp).1 0 h; omega
+  · -- last is n: n ∈ m and everything in m is ≤ n
+    have hle : ∀ z ∈ m, z ≤ n := by
+      intro z hz
+      rcases (hmem z).1 hz with h | h
+      · exact le_getLast_of_pairwise' s0 n h0.1 h0.2.2 z h
+      · exact le_getLast_of_pairwise' s1 n h1.1 h1.2.2 z h
+    have hnm : n ∈ m := (hmem n).2 (Or.inl (by
+      have := h0.2.2; rw [List.getLast?_eq_some_iff] at this
+      obtain ⟨ys, hys⟩ := this; rw [hys]; simp))
+    obtain ⟨ys, l, hys⟩ : ∃ ys l, m = ys ++ [l] := by
+      cases hm' : m.getLast? with
+      | none => rw [List.getLast?_eq_none_iff] at hm'; rw [hm'] at hnm; simp at hnm
+      | some l => exact ⟨_, l, (List.getLast?_eq_some_iff.1 hm').choose_spec⟩
+    subst hys
+    have hl : l ≤ n := hle l (by simp)
+    have : n ≤ l := by
+      rcases List.mem_append.1 hnm with h | h
+      · have := (List.pairwise_append.1 hp).2.2 n h l (by simp); omega
+      · simp at h; omega
+    have : l = n := by omega
+    simp [this]
+
+example : getSpansFor2FieldsBySpans [0, 2, 5] [0, 1, 2, 4, 5] = .ok [0, 1, 2, 4, 5] := rfl
+
+/-- **the entry points agree**: for two equal-length columns the two-array kernel, the multi-array kernel and the merge
+    of the two single-column span arrays (what `Session.get_spans(fields=(f0, f1))` does for Fields) return the same
+    span array, namely that of the zipped column. -/
+theorem entrypoints_agree (a b : List Int) (hl : a.length = b.length) :
+    getSpansFor2Fields .repaired a b = .ok (spans neq (a.zip b)) ∧
+    getSpansForMultiFields .repaired [a, b] = .ok (spans neq (a.zip b)) ∧
+    getSpansFor2FieldsBySpans (getSpansForField neq a) (getSpansForField neq b) = .ok (spans neq (a.zip b)) ∧
+    sessionGetSpansArrays .repaired [a, b] = .ok (spans neq (a.zip b)) ∧
+    sessionGetSpansFields .repaired [.numeric a, .numeric b] = .ok (spans neq (a.zip b)) := by
+  refine ⟨getSpansFor2Fields_eq_spec a b hl, ?_, get_spans_by_spans_eq_spec a b hl, getSpansFor2Fields_eq_spec a b hl, ?_⟩
+  · rw [getSpansForMultiFields_eq_spec a [b] (by intro f hf; simp at hf; rcases hf with rfl | rfl <;> simp [hl])]
+    congr 1
+    exact spans_congr _ _ _ _ (by simp [jointRows_length, List.length_zip, hl]) (isBoundary_jointRows2 a b hl)
+  · simp only [sessionGetSpansFields, columnSpans]
+    exact get_spans_by_spans_eq_spec a b hl
+
+/-- the Field / ndarray / Session single-column entry points of every column kind return the spans of the column's rows
+    (numbers, or byte strings compared byte-exactly); an indexed string column needs a well-formed index -/
+theorem column_spans_eq_spec (c : Column) (hv : c.Valid) : columnSpans .repaired c = .ok (spans neq c.rows) :=
+  columnSpans_eq_spec c hv
+
+/-- `Session.get_spans(fields=(f0, f1))` for Fields of any two kinds (numeric, fixed string, indexed string) -/
+theorem session_get_spans_fields_eq_spec (c0 c1 : Column) (h0 : c0.Valid) (h1 : c1.Valid)
+    (hl : c0.rows.length = c1.rows.length) :
+    sessionGetSpansFields .repaired [c0, c1] = .ok (spans neq (c0.rows.zip c1.rows)) :=
+  sessionGetSpansFields_eq_spec c0 c1 h0 h1 hl
+
+example : sessionGetSpansFields .repaired [.fixed [[97], [97, 32], [97, 32]], .numeric [1, 1, 2]] = .ok [0, 1, 2, 3] := rfl
+
+/-- every entry point's result is well-formed (strictly increasing, from 0 to the row count) -/
+theorem spans_wellformed_all (a b : List Int) (hl : a.length = b.length) :
+    ∃ sp, getSpansFor2Fields .repaired a b = .ok sp ∧ Wellformed sp a.length := by
+  refine ⟨_, getSpansFor2Fields_eq_spec a b hl, ?_⟩
+  have := spans_wellformed' neq (a.zip b)
+  simpa [List.length_zip, hl] using this
 
 /-! ## apply_spans_* : one entry per span, computed over exactly the rows of that span -/
 
